@@ -51,7 +51,7 @@ impl CProg {
 
 pub fn build_c(ctx: &Ctx, static_link: bool) -> Result<PathBuf, String> {
     let plain = std::env::var("PLAIN_TARGET").unwrap_or_else(|_| ctx.verif_dir.join("target/plain").to_string_lossy().to_string());
-    let libdir = format!("{plain}/release");
+    let libdir = format!("{plain}/ffi/release");
     let out = PathBuf::from(format!("{plain}/cabi-{}", if static_link { "static" } else { "so" }));
     let src = ctx.verif_dir.join("harness/cabi/cabi.c");
     let inc = ctx.repo_dir.join("clock-bound-ffi/include");
@@ -71,7 +71,9 @@ pub fn build_c(ctx: &Ctx, static_link: bool) -> Result<PathBuf, String> {
 }
 
 pub fn start_c(bin: &Path, label: &'static str) -> Result<CProg, String> {
-    let mut child = Command::new(bin).stdin(Stdio::piped()).stdout(Stdio::piped()).stderr(Stdio::null()).spawn().map_err(|e| format!("cannot start {}: {e}", bin.display()))?;
+    // stderr is a device on which every write fails (a full log disk): a library that prints diagnostics must not die of it
+    let err = std::fs::OpenOptions::new().write(true).open("/dev/full").map(Stdio::from).unwrap_or_else(|_| Stdio::null());
+    let mut child = Command::new(bin).stdin(Stdio::piped()).stdout(Stdio::piped()).stderr(err).spawn().map_err(|e| format!("cannot start {}: {e}", bin.display()))?;
     let sin = child.stdin.take().unwrap();
     let sout = BufReader::new(child.stdout.take().unwrap());
     let (tx, lines) = std::sync::mpsc::channel();
@@ -96,6 +98,16 @@ pub fn parse_abi(line: &str) -> BTreeMap<String, String> {
 
 /// the Rust client's answer, rendered like the C program's output line
 fn rust_now(path: &Path, real_ns: i128, mono_ns: i128, fail: (i32, i32), abi: &BTreeMap<String, String>) -> String {
+    match std::panic::catch_unwind(std::panic::AssertUnwindSafe(|| rust_now_inner(path, real_ns, mono_ns, fail, abi))) {
+        Ok(s) => s,
+        Err(_) => {
+            vclock::disarm();
+            "now PANIC (the Rust client panicked)".into()
+        }
+    }
+}
+
+fn rust_now_inner(path: &Path, real_ns: i128, mono_ns: i128, fail: (i32, i32), abi: &BTreeMap<String, String>) -> String {
     vclock::disarm();
     let opened = ClockBoundClient::new_with_path(path.to_str().unwrap());
     let mut cl = match opened {
@@ -442,6 +454,52 @@ fn differential(ctx: &Ctx, bin: &Path, label: &'static str, t: &mut Tally, sampl
             crate::seqmc::engine::close_leaked_fds(&path_b);
         }
     }
+    // (e) resource accounting: open/close cycles and failed opens leave no descriptor and no mapping behind, in
+    // either library ("close deallocates the context", as the header says)
+    {
+        let path = dir.join("seg-e");
+        let _ = std::fs::remove_file(&path);
+        let mut w = ShmWriter::new(&path).map_err(|e| e.to_string())?;
+        w.write(&Rec { as_of_s: 5000, as_of_ns: 0, va_s: 6000, va_ns: 0, bound: 1000, drift: 1000, reserved: 0, status: 1 }.to_ceb());
+        let empty = dir.join("seg-e-empty");
+        std::fs::write(&empty, b"").map_err(|e| e.to_string())?;
+        let parse = |l: &str| -> Result<(i64, i64), String> {
+            let p: Vec<&str> = l.split(' ').collect();
+            if p.len() == 3 && p[0] == "res" { Ok((p[1].parse().unwrap_or(-1), p[2].parse().unwrap_or(-1))) } else { Err(format!("unexpected reply to M: {l}")) }
+        };
+        for (what, target) in [("open + now + close of a valid segment", &path), ("failed open of an empty file", &empty)] {
+            // C library (one warm-up round first)
+            for round in 0..2 {
+                let before = parse(&c.ask("M")?)?;
+                for _ in 0..20 {
+                    let _ = c.ask(&format!("N {} 1700000000 5 5001 0 0 -1", target.display()))?;
+                }
+                let after = parse(&c.ask("M")?)?;
+                if round == 1 {
+                    n += 1;
+                    if after.0 > before.0 || after.1 > before.1 {
+                        t.add("C17:c-library-leaks-per-context", format!("20 x {what} through the C library: open descriptors {} -> {}, memory mappings {} -> {} (clockbound.h: close deallocates the context)", before.0, after.0, before.1, after.1), json!({"check": "C17", "part": "resource accounting", "library": label, "what": what}));
+                    }
+                }
+            }
+            // Rust client
+            for round in 0..2 {
+                let before = crate::common::resources();
+                for _ in 0..20 {
+                    let _ = rust_now(target, ts_ns(1_700_000_000, 5), ts_ns(5001, 0), (0, -1), &abi);
+                }
+                let after = crate::common::resources();
+                if round == 1 {
+                    n += 1;
+                    if after.0 > before.0 || after.1 > before.1 {
+                        t.add("C17:rust-client-leaks-per-context", format!("20 x {what} through the Rust client: open descriptors {} -> {}, memory mappings {} -> {}", before.0, after.0, before.1, after.1), json!({"check": "C17", "part": "resource accounting", "library": "Rust client", "what": what}));
+                    }
+                }
+            }
+        }
+        drop(w);
+        crate::seqmc::engine::close_leaked_fds(&path);
+    }
     // (d) a system call made while opening a valid segment fails once (open, the header read, mmap; several
     // errno values including the "try again" ones): both libraries must report the same kind and errno
     {
@@ -480,7 +538,7 @@ fn differential(ctx: &Ctx, bin: &Path, label: &'static str, t: &mut Tally, sampl
 }
 
 pub fn run(ctx: &Ctx) -> i32 {
-    std::panic::set_hook(Box::new(|_| {}));
+    crate::common::report::quiet_panics();
     if ctx.replay.is_some() {
         println!("C17 cases are re-checked by running the check; the replay file names the record / file and both answers");
         return 0;
